@@ -1213,6 +1213,22 @@ def class_resolver(cls, keep=()):
     return resolve
 
 
+def module_resolver(mod):
+    """resolver for paths() of a module-level function: f(...) -> the function f of that module (one object per module)"""
+    key = ('mod', id(mod))
+    if key in _RESOLVERS and _RESOLVERS[key][0] is mod:
+        return _RESOLVERS[key][1]
+
+    def resolve(call):
+        fn = call.func
+        if isinstance(fn, ast.Name):
+            r = mod.resolve_name(fn.id)
+            return r if isinstance(r, ast.FunctionDef) else None
+        return None
+    _RESOLVERS[key] = (mod, resolve)
+    return resolve
+
+
 def reaching(ps, node):
     """(path, conditions established before) for every path that executes the simple statement `node`."""
     out = []
